@@ -20,6 +20,14 @@ def run_backend(kind):
     with tempfile.TemporaryDirectory() as d:
         lab = labtech.Lab(storage=d, runner_backend=kind, max_workers=2, context=ctx)
         res = lab.run_tasks(tasks, disable_progress=True, disable_top=True)
+        # a re-execution of already cached tasks must see the same environment
+        ctasks = [U.K2('a'), U.K2('b')]
+        lab.run_tasks(ctasks, disable_progress=True, disable_top=True)
+        res2 = lab.run_tasks(ctasks, bust_cache=True, disable_progress=True, disable_top=True)
+        for t in ctasks:
+            want_ctx = {'shared': 1, t.name: ctx[t.name]}
+            if t not in res2 or res2[t]['context'] != want_ctx:
+                return f'{kind}: bust_cache re-run of cached {t}: context inside run() is {res2.get(t, {}).get("context") if t in res2 else "<task failed>"}, expected {want_ctx}'
     for t in tasks:
         r = res[t]
         want_ctx = {'shared': 1, t.name: ctx[t.name]}
@@ -44,6 +52,8 @@ def main():
     ap = argparse.ArgumentParser()
     ap.add_argument('--obligation', default='')
     ap.add_argument('--repo', default='/repo')
+    ap.add_argument('--prop', default='C16')
+    ap.add_argument('--tier', default='quick')
     a = ap.parse_args()
     res = dict(reproduced=False, level='api')
     try:
@@ -54,7 +64,11 @@ def main():
                 break
     except Exception:
         res = dict(reproduced=False, error=traceback.format_exc()[-1500:])
-    print(json.dumps(res, default=str))
+    if not a.obligation:
+        print(json.dumps([dict(name='c16:environment-probe', bounded=True, bound='3 backends x 2 probe tasks + bust_cache re-run of cached probes',
+                               violation=bool(res.get('reproduced')), witness=[res] if res.get('reproduced') else [])], default=str))
+    else:
+        print(json.dumps(res, default=str))
     return 1 if res.get('reproduced') else 0
 
 
